@@ -17,7 +17,7 @@ RULE = (
     "with emphasis on 0,1,2 and the 2047-octet limit, flag/escape-dense or uniform payload, unique 6-octet id in the info field), "
     "separated and terminated by 1..3 flags (30%: a fill run of 1..1000 flags with lengths around powers of two and multiples of 33); 30% of the frames sit on boundary values (HCS/FCS 0000, FFFF, ending in 7D, containing 7E, running FCS register 0000 mid-frame, near-maximum flag/escape-dense); every 20th stream holds 60..700 frames (up to ~90 KB, also fed as one tiny call followed by one huge call); splittings include cuts near 2047/2048/8191/8192 multiples and right after every n-th flag; stuffed on the wire for stuffing readers; for non-stuffing readers frames are redrawn until "
     "they are inside the property's domain (no flag in header octets; with abort detection no 7D directly before a flag or the frame end). "
-    "fill sweep: every fill-run length within +-8 of a multiple of 2047 / 2048 / 4096 / 8191 / 8192 / 1000 / 65536 (up to 20 600 flags quick, 66 000 thorough) between frames; one read() call of more than 4 MiB (36 MiB thorough) of back-to-back frames. "
+    "fill sweep: every fill-run length within +-8 of a multiple of 2047 / 2048 / 4096 / 8191 / 8192 / 1000 / 65536 (up to 20 600 flags quick, 66 000 thorough) between frames; one read() call of more than 4 MiB (and one of 12 MiB of larger frames, thorough) of back-to-back frames. "
     "Each stream runs under several splittings. evaluations = executions; distinct non-trivial = distinct (configuration, stream) digests "
     "(every stream contains >= 1 frame); a small shard runs ALL 2^(L-1) splittings of short streams; twin executions feed two reader objects alternately with adversarial call boundaries (calls ending right after an escape octet / starting with a flag)."
 )
@@ -37,7 +37,10 @@ def plan(tier: str, seed: int) -> list[dict]:
     for k in range(n_fill):
         shards.append({"kind": "fill_sweep", "rem": k, "mod": n_fill, "limit": 20600 if tier == "quick" else 66000})
     # one read() call that carries more than 4 MiB / 32 MiB (a capture replayed in one go)
-    shards.append({"kind": "huge_call", "octets": (5 << 20) if tier == "quick" else (36 << 20)})
+    shards.append({"kind": "huge_call", "octets": 5 << 20})
+    if tier != "quick":
+        # (large frames only: the reader's cost per call grows with frames x buffer size, tiny frames would take hours at this size)
+        shards.append({"kind": "huge_call", "octets": 12 << 20, "large_only": True})
     return shards
 
 
@@ -89,7 +92,10 @@ def run_huge_call(shard: dict, ctx) -> None:
                 break
         pool.append((fr, d, hdlc_gen.on_wire(fr, cfg[0])))
     while len(out) < shard["octets"]:
-        fr, d, wire = pool[rng.randrange(len(pool)) if len(sent) % 9 == 0 else 2 * rng.randrange(len(pool) // 2)]
+        if shard.get("large_only"):
+            fr, d, wire = pool[2 * rng.randrange(len(pool) // 2) + 1]
+        else:
+            fr, d, wire = pool[rng.randrange(len(pool)) if len(sent) % 9 == 0 else 2 * rng.randrange(len(pool) // 2)]
         sent.append((fr, d))
         out += wire + b"\x7e" * rng.choice((1, 1, 2))
     stream = bytes(out)
